@@ -55,7 +55,7 @@ def run_one(m, slot):
             return dict(m, result="skipped", detail="anchor text not found")
         ev = os.path.join(d, "evidence")
         os.makedirs(ev)
-        env = dict(os.environ, RFSM_EVIDENCE_DIR=ev, RFSM_TARGET_DIR=os.path.join(VERIF, ".cache", "target-selftest-%d" % slot))
+        env = dict(os.environ, RFSM_EVIDENCE_DIR=ev, RFSM_TARGET_DIR=os.path.join(VERIF, ".cache", "target-selftest-%d" % (slot + int(os.environ.get("RFSM_SELFTEST_SLOT_BASE", "0")))))
         if m["kind"] == "benign" and os.environ.get("RFSM_SELFTEST_CROSS") == "1":
             # a behaviour-preserving edit must be silent for EVERY property, not only for the one it was written for
             alarms = []
